@@ -39,8 +39,48 @@ MODES = [
 WIDTHS = [None, "1", "2", "3", "4", "5", "7", "8", "11", "12", "40", "79", "80", "200", "variable"]
 
 
+AUTHORS = ["Ann", "K", "日本語の名前がとても長い人物です", "Kangwook Lee (이강욱)", "a b c", "x" * 40, "éé", "Dan  Davison"]
+GREP_PATHS = ["src/a.rs", "Makefile", "a b/c.txt", "x-1.y", "日本/f.py", "README"]
+
+
+def gen_blame(rng):
+    out = []
+    for i in range(rng.randint(1, 12)):
+        h = rng.choice(["abcd1234", "^bcd1234", "0123456789abcdef", "ffff0000"])
+        f = rng.choice(["", "", "src/old name.rs "])
+        a = rng.choice(AUTHORS)
+        line = f"{h} {f}({a} {rng.choice(['2021-08-22 18:20:19 -0700', '2001-01-01 00:00:00 +1345'])} {rng.choice([1, 9, 10, 120, 99999])}) {rng.choice(M.BODIES)}"
+        if rng.random() < 0.2:
+            line = "\x1b[33m" + line + "\x1b[m"
+        out.append(line)
+    return out
+
+
+def gen_grep(rng):
+    out = []
+    import json as _json
+    js = rng.random() < 0.4
+    for i in range(rng.randint(1, 10)):
+        p, n, code = rng.choice(GREP_PATHS), rng.choice([0, 1, 7, 7, 120, 18446744073709551615]), rng.choice(M.BODIES)
+        if js:
+            k = len(code.encode())
+            sub = [{"match": {"text": "x"}, "start": rng.randint(0, k + 3), "end": rng.randint(0, k + 6)}] if rng.random() < 0.7 else []
+            out.append(_json.dumps({"type": rng.choice(["match", "context"]), "data": {"path": {"text": p}, "lines": {"text": code + "\n"},
+                                    "line_number": n, "absolute_offset": 0, "submatches": sub}}))
+        else:
+            sep = rng.choice([":", "-", "="])
+            out.append(rng.choice([f"{p}{sep}{n}{sep}{code}", f"{p}{sep}{code}", f"\x1b[35m{p}\x1b[m\x1b[36m{sep}\x1b[m\x1b[32m{n}\x1b[m\x1b[36m{sep}\x1b[m{code}", "--"]))
+    return out
+
+
 def gen_input(rng):
     r = rng.random()
+    if r < 0.07:
+        lines = gen_blame(rng)
+        return lines, ("\n".join(lines) + "\n").encode("utf-8", "surrogateescape")
+    if r < 0.14:
+        lines = gen_grep(rng)
+        return lines, ("\n".join(lines) + "\n").encode("utf-8", "surrogateescape")
     if r < 0.30:
         lines, _ = M.gen_git_diff(rng)
     elif r < 0.40:
